@@ -452,6 +452,27 @@ def rules(rep, m):
         r4.fail()
     else:
         r4.ok()
+    # the victim's pending wake-ups are withdrawn before it is notified: otherwise a wake-up of its own that is due in the
+    # same instant (same time, same priority, scheduled earlier) resumes it with success before the preempted signal
+    if len(untag) == 1 and len(intr) == 1:
+        vic = acx.canon(kids(untag[0])[1])
+        wd = [c_ for c_ in common.synchronous_withdrawals(m, acq, acx, vic) if any(y is c_ for y in walk(body))]
+        okw_ = False
+        for c_ in wd:
+            ch2 = inv.enclosing_chain(acq, c_)
+            inner = ch2[ch2.index(vloops[0]) + 1:] if vloops[0] in ch2 else ch2
+            if not any(y["kind"] in ("IfStmt", "WhileStmt", "ForStmt") for y in inner):
+                okw_ = True
+        r4.instance("each victim's pending wake-ups are withdrawn in the region that takes its units: %s" % okw_)
+        if not okw_:
+            rep.finding(r4, acq.name, "victim:wakeups-left", "the victim is sent the preempted signal by a scheduled interrupt, but "
+                        "its own pending wake-ups are not withdrawn in the same region: a hold of the victim that ends in this "
+                        "very instant resumes it with success first, and it carries on (and releases) as the holder of units "
+                        "it no longer has - it is not notified with the preempted signal at that instant",
+                        where=m.rel(loc(intr[0])))
+            r4.fail()
+        else:
+            r4.ok()
     # keyed by priority at creation and on priority change
     ur = pf["update_record"]
     ucx = FuncCtx(m, ur)
